@@ -9,7 +9,7 @@ domain, and the attribute lists must be equal.
 import json
 
 from vf import core, corpus, drive, il, ilvm, prog, sweep, vcheck
-from vf.props import c01, c05, c06
+from vf.props import c01, c03, c05, c06
 
 LEVEL = "exploration"
 EXTRA = c01.EXTRA
@@ -93,9 +93,9 @@ def prog_work(spec):
 
 
 def space(tier):
-    sp = c05.space("quick") + c06.space("quick")
+    sp = c05.space("quick") + c06.space("quick") + [s for s in c03.space("quick") if s.tag[0] in ("init", "binit", "bassign", "bcast", "breg", "bstore", "chain-assign", "store", "reg")]
     if tier == "thorough":
-        sp = c05.space("thorough") + c06.space("thorough")
+        sp = c05.space("thorough") + c06.space("thorough") + c03.space("quick")
     return sp
 
 
@@ -140,8 +140,8 @@ def run(ctx):
     # generated programs
     specs = space(ctx.tier)
     pc = drive.ParseCache(("c05-%s" % ctx.tier))
-    pc2 = drive.ParseCache(("c06-%s" % ctx.tier))
-    pc.z.update(pc2.z)
+    for other in ("c06-%s" % ctx.tier, "c03-quick"):
+        pc.z.update(drive.ParseCache(other).z)
     pc.ensure([s.text for s in specs], seed=ctx.seed)
     for f in comps:
         drive.install_cache(comps[f], pc)
